@@ -35,8 +35,26 @@ theorem callback_rel {t : Rat} {slf tgt : Nat → Prop} (s0 m : Sys) (a g : Nat)
 theorem die_dying (x : Actor) (t : Rat) (bm : Bool) (hl : x.life = .live) : ∃ d, (x.die t bm).life = .dying d := by
   unfold Actor.die; rw [hl]; exact ⟨t, rfl⟩
 
+theorem callback_gone (s0 m : Sys) (a g : Nat) (t : Rat) (x0 : Actor) (hd : ∃ d, x0.life = .dying d)
+    (h : runCallback s0 a g t x0 = some m) : (m.acts a).life.gone = true := by
+  obtain ⟨_, _, _, sf⟩ := runCallback_rel s0 m a g t x0 h
+  obtain ⟨d, hd⟩ := hd
+  rcases sf with sf | sf <;> simp only [core, Prod.mk.injEq] at sf
+  · rw [sf.2.1, hd]; rfl
+  · rw [sf.2.1]; rfl
+
+theorem gone_of_rel {t : Rat} {slf tgt : Prop} {x y : Actor} (h : AStep t slf tgt x y) (hx : x.life.gone = true) : y.life.gone = true := by
+  cases hl : x.life with
+  | absent => rw [hl] at hx; cases hx
+  | live => rw [hl] at hx; cases hx
+  | dying d => rcases h.l_gone d hl with h' | h' <;> (rw [h']; rfl)
+  | dead => rw [h.l_dead hl]; rfl
+
+theorem settle_gone {m s' : Sys} (a : Nat) (h : s' ∈ m.settleL) (hx : (m.acts a).life.gone = true) : (s'.acts a).life.gone = true :=
+  gone_of_rel ((settleL_rel m s' (fun _ => False) (fun _ => False) h).2.act a) hx
+
 theorem step_rel_exitCb (s s' : Sys) (a g : Nat) (t : Rat) (h : s' ∈ step s (.exitCb a g t)) :
-    s.timeOk t = true ∧ s'.clock = t ∧ SRel t (fun j => j = a) (fun _ => False) s s' := by
+    s.timeOk t = true ∧ (s'.clock = t ∧ SRel t (fun j => j = a) (fun _ => False) s s') ∧ (s'.acts a).life.gone = true := by
   have hto := step_exitCb_timeOk s a g t (by intro e; rw [e] at h; cases h)
   refine ⟨hto, ?_⟩
   unfold step at h
@@ -54,12 +72,12 @@ theorem step_rel_exitCb (s s' : Sys) (a g : Nat) (t : Rat) (h : s' ∈ step s (.
               ({ s with clock := t, acts := upd s.acts a { (s.acts a) with life := .dead, ghost := false, started := true,
                                                                                 onExit := [], ran := [0] } } : Sys) :=
             ⟨rfl, astep_upd _ a _ (astep_callback t _ _ _ _ ⟨d, hd⟩ (Or.inr rfl))⟩
-          exact settle_compose r1 rfl h
+          exact ⟨settle_compose r1 rfl h, settle_gone a h (by simp [upd, Life.gone])⟩
         · cases h
       · split at h
         · obtain ⟨m, hm, hs⟩ := mem_flatMap_settle h
           obtain ⟨c, r⟩ := callback_rel (slf := fun j => j = a) (tgt := fun _ => False) s m a g (s.acts a) ⟨d, hd⟩ hm (AStep.refl _ _ _ _)
-          exact settle_compose r c hs
+          exact ⟨settle_compose r c hs, settle_gone a hs (callback_gone s m a g t _ ⟨d, hd⟩ hm)⟩
         · cases h
     · -- live: kill timer, own end, deadlock
       rename_i hl
@@ -69,7 +87,7 @@ theorem step_rel_exitCb (s s' : Sys) (a g : Nat) (t : Rat) (h : s' ∈ step s (.
           · obtain ⟨m, hm, hs⟩ := mem_flatMap_settle h
             obtain ⟨c, r⟩ := callback_rel (slf := fun j => j = a) (tgt := fun _ => False) s m a g _ (die_dying _ t false hl) hm
               (AStep.die _ _ _ _ _)
-            exact settle_compose r c hs
+            exact ⟨settle_compose r c hs, settle_gone a hs (callback_gone s m a g t _ (die_dying _ t false hl) hm)⟩
           · cases h
         · split at h
           · obtain ⟨m, hm, hs⟩ := mem_flatMap_settle h
@@ -79,7 +97,8 @@ theorem step_rel_exitCb (s s' : Sys) (a g : Nat) (t : Rat) (h : s' ∈ step s (.
               rw [this.2.1]; exact hl
             obtain ⟨c, r⟩ := callback_rel (slf := fun j => j = a) (tgt := fun _ => False) (s.assignHandle a) m a g _
               (die_dying _ t false hl') hm (AStep.die _ _ _ _ _)
-            exact settle_compose ((srel_assign s a t _ _).trans r) c hs
+            exact ⟨settle_compose ((srel_assign s a t _ _).trans r) c hs,
+              settle_gone a hs (callback_gone _ m a g t _ (die_dying _ t false hl') hm)⟩
           · cases h
       · split at h
         · split at h
@@ -95,7 +114,7 @@ theorem step_rel_exitCb (s s' : Sys) (a g : Nat) (t : Rat) (h : s' ∈ step s (.
             have hdy : ∃ d, ((if a < s.k then (s.acts a).die t true else s.acts a)).life = .dying d := by
               rw [if_pos hg.1]; exact die_dying _ t true hl
             obtain ⟨c, r⟩ := callback_rel (slf := fun j => j = a) (tgt := fun _ => False) _ m a g _ hdy hm (AStep.refl _ _ _ _)
-            exact settle_compose (r1.trans r) c hs
+            exact ⟨settle_compose (r1.trans r) c hs, settle_gone a hs (callback_gone _ m a g t _ hdy hm)⟩
         · cases h
     · cases h
 
@@ -118,7 +137,7 @@ theorem step_rel (s s' : Sys) (l : Label) (h : s' ∈ step s l) :
     exact ⟨h1, h2, h3.weaken (fun j hj => by simp [SelfOf, Label.subject, hj]) (fun _ h => h.elim)⟩
   | exitCb a g t =>
     right
-    obtain ⟨h1, h2, h3⟩ := step_rel_exitCb s s' a g t h
+    obtain ⟨h1, ⟨h2, h3⟩, _⟩ := step_rel_exitCb s s' a g t h
     exact ⟨h1, h2, h3.weaken (fun j hj => by simp [SelfOf, Label.subject, hj]) (fun _ h => h.elim)⟩
   | finish t =>
     left
